@@ -217,8 +217,28 @@ class RankFacts:
             items = nf._seq_items(s.args[1]) or []
             rs = {self.rank(a, depth + 1) for a in items if isinstance(a, S)} - {None}
             return rs.pop() + 1 if len(rs) == 1 else None
-        if fn0 in ("torch.abs", "torch.exp", "torch.log", "torch.sqrt", "torch.clamp", "torch.round", "torch.floor", "torch.ceil", "torch.nan_to_num") and len(s.args) >= 2 and isinstance(s.args[1], S):
+        if fn0 in ("torch.abs", "torch.exp", "torch.log", "torch.sqrt", "torch.clamp", "torch.round", "torch.floor", "torch.ceil", "torch.nan_to_num", "torch.cumsum", "torch.clip",
+                   "torch.sigmoid", "torch.tanh", "torch.relu", "torch.roll", "torch.flip", "torch.logical_not") and len(s.args) >= 2 and isinstance(s.args[1], S):
             return self.rank(s.args[1], depth + 1)
+        if fn0 in ("torch.max", "torch.min", "torch.maximum", "torch.minimum", "torch.logical_and", "torch.logical_or") and len(s.args) == 3 and all(isinstance(a, S) and a.op != "kw" for a in s.args[1:]) \
+                and _cint(s.args[2]) is None:
+            # elementwise max / min of two tensors
+            rs = [self.rank(a, depth + 1) for a in s.args[1:] if not is_scalarish(a) and nf.strip(a).op != "selfattr"]
+            return max(rs) if rs and all(r is not None for r in rs) else None
+        if fn0 in ("torch.max", "torch.min", "torch.sum", "torch.mean", "torch.any", "torch.all", "torch.count_nonzero", "torch.argmax", "torch.argmin", "torch.norm", "torch.prod") and len(s.args) >= 3:
+            d_ = _kw(s.args[2:], "dim")
+            if d_ is None and _cint(s.args[2]) is not None:
+                d_ = s.args[2]
+            if d_ is not None and _cint(d_) is not None:
+                r = self.rank(s.args[1], depth + 1) if isinstance(s.args[1], S) else None
+                kd = _kw(s.args[2:], "keepdim")
+                if r is None:
+                    return None
+                return r if (kd is not None and vg.is_const(kd, True)) else r - 1
+        if s.op == "param" and s.args[0] == "actions":
+            return 2  # [batch, steps] by the env API (get_reward / check_solution_validity)
+        if s.op == "store" and isinstance(s.args[0], S):
+            return self.rank(s.args[0], depth + 1)
         if fn0 is not None and fn0.endswith(":get_distance") and len(s.args) >= 3:
             rs = [self.rank(a, depth + 1) for a in s.args[1:3] if isinstance(a, S)]
             return max(rs) - 1 if rs and all(r is not None for r in rs) else None
@@ -234,7 +254,9 @@ class RankFacts:
         if s.op == "nograd":
             return self.rank(s.args[0], depth + 1)
         if s.op in ("+", "-", "*", "/", "&", "|", "<", "<=", ">", ">=", "==", "!="):
-            rs = [self.rank(a, depth + 1) for a in s.args if isinstance(a, S) and not is_scalarish(a)]
+            # configuration attributes (self.capacity, self.max_time, ...) are Python numbers in this code base: they do not change the rank
+            ops_ = [a for a in s.args if isinstance(a, S) and not is_scalarish(a) and not (nf.strip(a).op == "selfattr")]
+            rs = [self.rank(a, depth + 1) for a in ops_]
             if rs and all(r is not None for r in rs):
                 return max(rs)
             return None
@@ -246,6 +268,8 @@ class RankFacts:
             ridx = self.rank(s.args[2], depth + 1)
             dim = _kw(s.args[3:], "dim")
             sq = _kw(s.args[3:], "squeeze")
+            if rsrc is not None and sq is not None and vg.is_const(sq, False):
+                return rsrc
             if rsrc is None or ridx is None or (dim is not None and _cint(dim) != 1) or (sq is not None and not vg.is_const(sq, True)):
                 return None
             if ridx == 1 or (ridx == 2 and self.unit_last(s.args[2])):
@@ -264,6 +288,19 @@ class RankFacts:
                 return self.rank(base, depth + 1)
             if name in ("repeat", "permute") and len(s.args) > 2 and not any(isinstance(x, S) and x.op in ("starred", "kw") for x in s.args[2:]):
                 return len(s.args) - 2
+            if name in ("view", "reshape") and len(s.args) > 2:
+                shp = list(s.args[2:])
+                if len(shp) == 1 and isinstance(shp[0], S) and shp[0].op in ("tuple", "list"):
+                    shp = list(shp[0].args)
+                if shp and not any(isinstance(x, S) and x.op in ("starred", "kw") for x in shp):
+                    return len(shp)
+            if name in ("expand_as", "view_as", "type_as", "reshape_as") and len(s.args) > 2 and isinstance(s.args[2], S):
+                return self.rank(s.args[2], depth + 1) if name != "type_as" else self.rank(base, depth + 1)
+            if name == "expand" and len(s.args) > 2 and not any(isinstance(x, S) and x.op in ("starred", "kw") for x in s.args[2:]):
+                return len(s.args) - 2
+            if name in ("maximum", "minimum", "where", "logical_and", "logical_or") and len(s.args) > 2:
+                rs = [self.rank(a, depth + 1) for a in [base] + list(s.args[2:]) if isinstance(a, S) and not is_scalarish(a) and a.op != "kw"]
+                return max(rs) if rs and all(r is not None for r in rs) else None
             if name == "unsqueeze":
                 r = self.rank(base, depth + 1)
                 return None if r is None else r + 1
